@@ -58,7 +58,11 @@ class MeshTet2(MeshTet1):
         return replace(M, doflocs=doflocs)
 
     def _uniform(self):
-        return MeshTet2.from_mesh(MeshTet1.from_mesh(self).refined())
+        # MeshTet1 orders the inner children by the chosen diagonal; let it
+        # propagate the subdomains instead of the generic map in Mesh.refined
+        m = replace(MeshTet1.from_mesh(self),
+                    _subdomains=self._subdomains).refined()
+        return replace(MeshTet2.from_mesh(m), _subdomains=m._subdomains)
 
     def _adaptive(self, marked):
         return MeshTet2.from_mesh(MeshTet1.from_mesh(self).refined(marked))
